@@ -66,9 +66,9 @@ def run(tier, seed):
     chk = vkit.Check("C04", tier, seed)
     exe = bc.build_driver()
     families = [("sp", "pr", "tcp")] if q else [("sp", "pr", "tcp"), ("tcp", "pw", "sp"), ("pw", "sp", "pr")]
-    D = 14 if q else 22
-    nsim = 20 if q else 300
-    maxh = 80 if q else 800
+    D = 12 if q else 22
+    nsim = 12 if q else 300
+    maxh = 50 if q else 800
     ops = {}
     verdict_hist = {}
     noise = []
@@ -87,14 +87,33 @@ def run(tier, seed):
             jobs.append(((corpus, "rnd"), lambda c=c, name=name: bc.tlc_backend(
                 name + "_rnd", c, mode="gen", emit="EmitSim", simulate=nsim, depth=120, seed=seed + fi, max_hist=maxh,
                 timeout=1500)))
-            jobs.append(((corpus, "exh"), lambda c=cx, name=name: bc.tlc_backend(name + "_exh", c, mode="gen", timeout=1500)))
-        gen = bc.run_parallel(jobs, nthreads=4)
+            if not q:
+                jobs.append(((corpus, "exh"), lambda c=cx, name=name: bc.tlc_backend(name + "_exh", c, mode="gen", timeout=1500)))
+        if q:
+            # one exhaustive run (epoll: all masks, ET and LT); the corpora of the other backends are its sub-sets
+            # (the predicted interest sets of a history do not depend on the backend)
+            cx = bc.consts("epoll", 3, nfd=1, nev=1, kinds=kinds, acts=ACTS)
+            jobs.append((("all", "exh"), lambda c=cx: bc.tlc_backend("C04_f%d_all_exh" % fi, c, mode="gen", timeout=1500)))
+        gen = bc.run_parallel(jobs, nthreads=5)
+        if q:
+            res, allh = gen[("all", "exh")]
+            chk.add_tlc("C04_f%d_all_exh" % fi, res)
+            def fits(h, corpus):
+                adds = [s for s in h if s["a"] == "add"]
+                if corpus == "common":
+                    return all(s["m"] <= 3 and not s["et"] for s in adds)
+                if corpus == "closed":
+                    return all(not s["et"] for s in adds)
+                return True
+            for corpus in CORPORA:
+                gen[(corpus, "exh")] = (None, [h for h in allh if fits(h, corpus)])
         hists = {}
         for corpus in CORPORA:
             hs = []
             for kind in ("exh", "rnd"):
                 res, h = gen[(corpus, kind)]
-                chk.add_tlc("C04_f%d_%s_%s" % (fi, corpus, kind), res)
+                if res is not None:
+                    chk.add_tlc("C04_f%d_%s_%s" % (fi, corpus, kind), res)
                 hs += h
             if not hs:
                 raise vkit.InfraError("no scenarios for corpus %s" % corpus)
@@ -106,11 +125,15 @@ def run(tier, seed):
                     ops[key] = ops.get(key, 0) + 1
             chk.sample({"kinds": kinds, "corpus": corpus, "history": bc.strip_obs(hs[-1])}, limit=5)
 
+        # quick: the ET-only corpora run with the self-pipe configuration only (the common corpora run on all 8)
+        def sigfds(corpus):
+            return (0,) if (q and corpus.startswith("et")) else (0, 1)
+
         # ---- 2. execution on the real backends (+ binding G on return values / interest set)
         runs = {}      # (corpus, backend, sigfd) -> outs
         for corpus, (gen_be, targets) in CORPORA.items():
             for be in targets:
-                for sigfd in (0, 1):
+                for sigfd in sigfds(corpus):
                     dc, outs = bc.run_real(exe, hists[corpus], cons[corpus], be, sigfd, fdmap=fi)
                     runs[(corpus, be, sigfd)] = outs
                     for (i, k, msg) in vkit.compare_histories(hists[corpus], outs)[:3]:
@@ -134,7 +157,7 @@ def run(tier, seed):
         vjobs = []
         for be in bc.BACKENDS:
             todo = [(corpus, i, sigfd, runs[(corpus, be, sigfd)][i]) for corpus, (_, targets) in CORPORA.items() if be in targets
-                    for sigfd in (0, 1) for i in range(len(hists[corpus]))]
+                    for sigfd in sigfds(corpus) for i in range(len(hists[corpus]))]
             vjobs.append((be, lambda be=be, todo=todo: validate(be, todo, "")))
         vres = bc.run_parallel(vjobs, nthreads=4)
         for be in bc.BACKENDS:
